@@ -523,21 +523,43 @@ func (n *normalizer) constIfRound() bool {
 			case isNilExpr(be.X):
 				id, _ = ast.Unparen(be.Y).(*ast.Ident)
 			}
-			if id == nil {
-				return true
-			}
-			v, ok := n.info.Uses[id].(*types.Var)
-			if !ok || v.IsField() || v.Parent() == nil || v.Parent() == n.pp.Types.Scope() || n.varBad[v] || n.varAssign[v] != nil {
-				return true
-			}
-			if _, isSig := v.Type().Underlying().(*types.Signature); !isSig {
-				return true
-			}
-			def, ok := n.varDef[v]
-			if !ok {
-				return true
-			}
 			known := 0 // +1 non-nil, -1 nil
+			if id == nil {
+				// x.f where f is an unexported field nothing in the package ever assigns (a seam only a test sets): nil
+				var sel *ast.SelectorExpr
+				switch {
+				case isNilExpr(be.Y):
+					sel, _ = ast.Unparen(be.X).(*ast.SelectorExpr)
+				case isNilExpr(be.X):
+					sel, _ = ast.Unparen(be.Y).(*ast.SelectorExpr)
+				}
+				if sel == nil {
+					return true
+				}
+				s := n.info.Selections[sel]
+				if s == nil || s.Kind() != types.FieldVal {
+					return true
+				}
+				fv, isVar := s.Obj().(*types.Var)
+				if !isVar || !n.neverAssignedField(fv) {
+					return true
+				}
+				known = -1
+			}
+			var def ast.Expr
+			if known == 0 {
+				v, ok := n.info.Uses[id].(*types.Var)
+				if !ok || v.IsField() || v.Parent() == nil || v.Parent() == n.pp.Types.Scope() || n.varBad[v] || n.varAssign[v] != nil {
+					return true
+				}
+				if _, isSig := v.Type().Underlying().(*types.Signature); !isSig {
+					return true
+				}
+				def, ok = n.varDef[v]
+				if !ok {
+					return true
+				}
+			}
 			switch y := ast.Unparen(def).(type) {
 			case *ast.Ident:
 				if _, isNil := n.info.Uses[y].(*types.Nil); isNil {
@@ -633,7 +655,11 @@ func (n *normalizer) constIfRound() bool {
 				tline = n.fset.Position(taken.Pos()).Line
 			}
 			n.addEdit(filename, start, end, "\n"+n.lineDirective(filename, tline)+text+"\n"+n.lineDirective(filename, n.fset.Position(token.Pos(int(is.Pos())+end-start)).Line))
-			n.notes = append(n.notes, fmt.Sprintf("nil test of %s at %s:%d decided by its single definition", id.Name, shortFile(filename), line))
+			if id != nil {
+				n.notes = append(n.notes, fmt.Sprintf("nil test of %s at %s:%d decided by its single definition", id.Name, shortFile(filename), line))
+			} else {
+				n.notes = append(n.notes, fmt.Sprintf("nil test at %s:%d decided: nothing in the package assigns the field", shortFile(filename), line))
+			}
 			changed = true
 			return false
 		})
@@ -2343,6 +2369,7 @@ func (n *normalizer) copyPropRound() bool {
 			}
 			parent := map[ast.Node]ast.Node{}
 			inLit := map[ast.Node]bool{}
+			litOf := map[ast.Node]*ast.FuncLit{} // innermost enclosing function literal
 			var stack []ast.Node
 			litDepth := 0
 			ast.Inspect(fd.Body, func(x ast.Node) bool {
@@ -2361,11 +2388,22 @@ func (n *normalizer) copyPropRound() bool {
 				}
 				if litDepth > 0 {
 					inLit[x] = true
+					for k := len(stack) - 1; k >= 0 && litOf[x] == nil; k-- {
+						if l, isLit := stack[k].(*ast.FuncLit); isLit {
+							litOf[x] = l
+						}
+					}
+					if l, isLit := x.(*ast.FuncLit); isLit {
+						litOf[x] = l
+					}
 				}
 				stack = append(stack, x)
 				return true
 			})
 			newStruct := func(t types.Type) bool {
+				if p, isPtr := t.(*types.Pointer); isPtr {
+					t = p.Elem() // a pointer to such a struct: the copy names the same object
+				}
 				named, ok := t.(*types.Named)
 				if !ok || named.Obj().Pkg() != n.pp.Types || headTypes[named.Obj().Name()] {
 					return false
@@ -2448,7 +2486,7 @@ func (n *normalizer) copyPropRound() bool {
 			appliedX, appliedY := map[types.Object]bool{}, map[types.Object]bool{}
 			ast.Inspect(fd.Body, func(x ast.Node) bool {
 				as, ok := x.(*ast.AssignStmt)
-				if !ok || as.Tok != token.DEFINE || len(as.Lhs) != 1 || len(as.Rhs) != 1 || inLit[as] {
+				if !ok || as.Tok != token.DEFINE || len(as.Lhs) != 1 || len(as.Rhs) != 1 {
 					return true
 				}
 				xid, ok1 := as.Lhs[0].(*ast.Ident)
@@ -2466,6 +2504,10 @@ func (n *normalizer) copyPropRound() bool {
 				}
 				blk, ok := parent[as].(*ast.BlockStmt)
 				if !ok {
+					return true
+				}
+				// inside a function literal (which runs at some later time): y is never written at all
+				if inLit[as] && len(writes[yo]) > 0 {
 					return true
 				}
 				// y untouched while x is in scope
@@ -2486,7 +2528,7 @@ func (n *normalizer) copyPropRound() bool {
 					if !ok || n.info.Uses[id] != types.Object(xo) {
 						return true
 					}
-					if inLit[id] {
+					if litOf[id] != litOf[as] {
 						good = false
 						return true
 					}
@@ -2544,4 +2586,93 @@ func (n *normalizer) copyPropRound() bool {
 		}
 	}
 	return changed
+}
+
+// neverAssignedField: fv is an unexported field of a struct type of the package, of a type whose zero value is nil, and
+// no non-test source of the package gives it a value: no assignment through a selector, no composite literal that sets it
+// (keyed, or positional for its struct), its address is never taken, and no value of another struct type is converted to
+// its struct. Every load of it then yields nil.
+func (n *normalizer) neverAssignedField(fv *types.Var) bool {
+	if !fv.IsField() || fv.Exported() || fv.Pkg() != n.pp.Types || fv.Embedded() {
+		return false
+	}
+	switch fv.Type().Underlying().(type) {
+	case *types.Signature, *types.Pointer, *types.Interface, *types.Map, *types.Slice, *types.Chan:
+	default:
+		return false
+	}
+	// the struct types that declare fv
+	owner := func(t types.Type) bool {
+		st, ok := t.Underlying().(*types.Struct)
+		if !ok {
+			if p, isP := t.Underlying().(*types.Pointer); isP {
+				st, ok = p.Elem().Underlying().(*types.Struct)
+			}
+		}
+		if !ok {
+			return false
+		}
+		for i := 0; i < st.NumFields(); i++ {
+			if st.Field(i) == fv {
+				return true
+			}
+		}
+		return false
+	}
+	selects := func(e ast.Expr) bool {
+		sel, ok := ast.Unparen(e).(*ast.SelectorExpr)
+		if !ok {
+			return false
+		}
+		s := n.info.Selections[sel]
+		return s != nil && s.Kind() == types.FieldVal && s.Obj() == types.Object(fv)
+	}
+	assigned := false
+	for _, f := range n.pp.Syntax {
+		ast.Inspect(f, func(x ast.Node) bool {
+			if assigned {
+				return false
+			}
+			switch y := x.(type) {
+			case *ast.AssignStmt:
+				for _, l := range y.Lhs {
+					if selects(l) {
+						assigned = true
+					}
+				}
+			case *ast.RangeStmt:
+				if (y.Key != nil && selects(y.Key)) || (y.Value != nil && selects(y.Value)) {
+					assigned = true
+				}
+			case *ast.UnaryExpr:
+				if y.Op == token.AND && selects(y.X) {
+					assigned = true
+				}
+			case *ast.CompositeLit:
+				tv, ok := n.info.Types[y]
+				if !ok || !owner(tv.Type) {
+					return true
+				}
+				for _, el := range y.Elts {
+					kv, isKV := el.(*ast.KeyValueExpr)
+					if !isKV {
+						assigned = true // positional: every field is given a value
+						break
+					}
+					if k, isID := kv.Key.(*ast.Ident); isID && n.info.Uses[k] == types.Object(fv) {
+						assigned = true
+					}
+				}
+			case *ast.CallExpr:
+				// a conversion T(v) to the owning struct from a different type
+				if tv, ok := n.info.Types[y.Fun]; ok && tv.IsType() && owner(tv.Type) && len(y.Args) == 1 {
+					if at, ok := n.info.Types[y.Args[0]]; ok && !types.Identical(at.Type, tv.Type) {
+						assigned = true
+					}
+				}
+			}
+			return true
+		})
+	}
+	return !assigned
 }
